@@ -121,7 +121,12 @@ def backfill (db : Db) (h : Nat) : Except Unit Db :=
 
 /-- What one `Migrate` call returned: `(nil, nil)`, `(shouldRerun, nil)`, `(shouldRerun, err)`;
 or the process died inside. -/
-inductive Ret | done | rerun | failed | crashed | diverged
+inductive Ret
+  | done | rerun | failed | crashed | diverged
+  /-- `(shouldNotRerun, err)`: `return shouldNotRerun, clearOldBuckets(database)` when one of the two
+  `DeletePrefix` fails — a NIL state together with an error (every other failure returns
+  `shouldRerun`). -/
+  | failedNil
   deriving Repr, DecidableEq
 
 /-- What the environment does during one iteration of the `for` loop of `Migrate`. -/
@@ -147,8 +152,34 @@ inductive Step
   several workers fail, each in its own range. `sel`: which complete ranges were committed;
   `partials`: the `(r, k)` whose partial batch was committed. `(shouldRerun, err)`. -/
   | ingestError (emit : Option Nat) (sel : List Bool) (partials : List (Nat × Nat))
+  /-- A graceful pass (as `pass`) in which the write of some batches that held NOTHING TO MIGRATE was
+  elided: of the emitted ranges, a range that is not selected and holds no old entry (all its blocks
+  are empty or already migrated) is left as it was — its empty blocks get no entry in this pass. The
+  committer of the current tree writes every batch (`sel` all true, which is `pass`); a committer that
+  skips a batch whose `totalTxCount` is 0 behaves like this. The final back-fill stores the missing
+  empty entries, so the theorems hold for both. A range WITH old entries is always committed. -/
+  | passSkip (emit : Option Nat) (sel : List Bool)
+  /-- Final step (no old entry left): the back-fill batch is committed, then the process dies before
+  or inside `clearOldBuckets` (two `DeletePrefix` on buckets that are empty already). -/
+  | crashClear
+  /-- Final step: the back-fill batch is committed, then a `DeletePrefix` of `clearOldBuckets` fails:
+  `Migrate` returns `(shouldNotRerun, err)`. -/
+  | failClear
+
+/-- Does the step model a CANCELLATION of the context (observed at the loop head, or by the source
+after `k` ranges)? -/
+def Step.cancels : Step → Bool
+  | .cancelHead => true
+  | .pass (some _) => true
+  | .passSkip (some _) _ => true
+  | _ => false
 
 def selOf (l : List Bool) (i : Nat) : Bool := l.getD i false
+
+/-- Does range number `i` of a pass from `f` hold an old entry (transaction or receipt)? -/
+def rangeHasOld (db : Db) (f h i : Nat) : Bool :=
+  (List.range (h + 1)).any (fun b =>
+    decide (f ≤ b) && decide ((b - f) / batchSize = i) && (!(db.blk b).otx.isEmpty || !(db.blk b).orc.isEmpty))
 
 /-- One iteration of the loop. `none` = go round again. -/
 def iteration (cfg : Cfg) (db : Db) (h : Nat) (st : Step) : Db × Option Ret :=
@@ -164,6 +195,16 @@ def iteration (cfg : Cfg) (db : Db) (h : Nat) (st : Step) : Db × Option Ret :=
       | .crash _ _ => (db, some .crashed)
       | .writeFail _ _ => (db, some .failed)
       | .ingestError _ _ _ => (db, some .failed)
+      | .crashClear =>
+        if cfg.skipUnstoredEmpty then (db, some .crashed)
+        else match backfill db h with
+          | .ok db' => (db', some .crashed)
+          | .error _ => (db, some .failed)
+      | .failClear =>
+        if cfg.skipUnstoredEmpty then (db, some .failedNil)
+        else match backfill db h with
+          | .ok db' => (db', some .failedNil)
+          | .error _ => (db, some .failed)
       | _ =>
         if cfg.skipUnstoredEmpty then (db, some .done)
         else match backfill db h with
@@ -173,6 +214,14 @@ def iteration (cfg : Cfg) (db : Db) (h : Nat) (st : Step) : Db × Option Ret :=
       let all := numRanges f h
       match st with
       | .crashFinal => (db, some .crashed)
+      | .crashClear => (db, some .crashed)      -- not in the final step yet: dies before any commit
+      | .failClear => (db, some .failed)        -- not in the final step yet: a failed batch write, nothing committed
+      | .passSkip emit sel =>
+        let e := min (emit.getD all) all
+        if passFails cfg db f h e then (db, some .failed)
+        else
+          let db' := applyPass cfg db f h (fun i => decide (i < e) && (selOf sel i || rangeHasOld db f h i))
+          if e < all then (db', some .rerun) else (db', none)
       | .crash emit sel =>
         let e := min (emit.getD all) all
         (applyPass cfg db f h (fun i => decide (i < e) && selOf sel i), some .crashed)
